@@ -76,6 +76,9 @@ func (l *Link) ID() tcpip.LinkEndpointID                     { return l.id }
 // time, and offers a pre-emption point.
 func (l *Link) WritePacket(r *stack.Route, hdr buffer.Prependable, payload buffer.VectorisedView, protocol tcpip.NetworkProtocolNumber) *tcpip.Error {
 	w := l.w
+	if w.storm() {
+		return nil
+	}
 	h := hdr.View()
 	data := make([]byte, 0, len(h)+payload.Size())
 	data = append(data, h...)
@@ -105,6 +108,23 @@ func (l *Link) WritePacket(r *stack.Route, hdr buffer.Prependable, payload buffe
 	}
 	w.yield("link.write")
 	return nil
+}
+
+// storm reports whether the stack is emitting without bound inside one simulated
+// instant (a zero-length timer, a loop): such a run never quiesces and ends in
+// the runner's watchdog; meanwhile its frames are no longer kept, so that it
+// cannot exhaust the machine's memory first.
+func (w *World) storm() bool {
+	now := time.Since(w.T0)
+	if now != w.stormAt {
+		w.stormAt, w.stormN = now, 0
+	}
+	w.stormN++
+	if w.stormN > 300000 {
+		w.Fail("emission-storm", "", "more than 300000 frames emitted within one simulated instant (t=%v): a timer of zero length or an unbounded loop in the stack", now)
+		return true
+	}
+	return false
 }
 
 // c06 passes the frame through the world's own monitor when C06 is being
@@ -147,6 +167,8 @@ type World struct {
 	TraceOn   bool
 	ipid      uint16 // identification counter of packets the scripted peer builds
 	mon6      *Monitor
+	stormAt   time.Duration
+	stormN    int
 	DropIDs   map[int]bool        // emissions (by frame number) the wire loses: fault positions chosen up front
 	DropGuard func(f *Frame) bool // frames the fault model does not allow to lose
 	rel       *relTrace
